@@ -3,6 +3,7 @@ package tree
 import (
 	"fmt"
 	"os"
+	"sort"
 	"time"
 
 	"verifharness/internal/corr"
@@ -29,6 +30,7 @@ func oneHistory(r *corr.Run, nrep, steps int, focus string) {
 		}
 	}()
 	snapPct := []int{0, 8, 20, 35}[r.Intn(4)]
+	w.refusePct = 12
 	// guard-directed opening (about half of the histories): every replica adds concurrently on the same heads
 	// (>= 3 sibling changes with 3+ replicas, arriving at each replica in a different order), the head updates
 	// are delivered, then every replica adds locally on top of the merge (several heads, parents = all heads)
@@ -42,9 +44,39 @@ func oneHistory(r *corr.Run, nrep, steps int, focus string) {
 					}
 				}
 			}
+			// guard-directed: one replica first receives the concurrent siblings with the greater ids, then the one
+			// with the smallest id meets a refusing validator (the rolled-back child is not among the last siblings)
+			if len(w.reps) >= 3 && r.Chance(60) && !w.failed {
+				a := w.reps[r.Intn(len(w.reps))]
+				var mine []message
+				var restq []message
+				for _, m := range w.queue {
+					if m.to == a.idx && len(m.changes) > 0 {
+						mine = append(mine, m)
+					} else {
+						restq = append(restq, m)
+					}
+				}
+				if len(mine) >= 2 {
+					sort.Slice(mine, func(i, j int) bool { return mine[i].changes[0].Id > mine[j].changes[0].Id })
+					w.queue = append(restq, mine[len(mine)-1])
+					for _, m := range mine[:len(mine)-1] {
+						if !w.failed {
+							w.apply(a, m, m.kind)
+						}
+					}
+					if !w.failed {
+						w.applyRefused(a, mine[len(mine)-1])
+						r.Count("refuse.guard-directed")
+					}
+				}
+			}
+			// many concurrent siblings are arriving now: refused batches hit parents with several attached children
+			w.refusePct = 35
 			for k := 0; k < 200 && len(w.queue) > 0 && !w.failed; k++ {
 				w.deliverOne()
 			}
+			w.refusePct = 12
 			if !w.failed && r.Chance(50) {
 				w.crossCheck()
 			}
